@@ -37,6 +37,14 @@
 (* closeCh, Accept on a closed listener always fails); without it the spec   *)
 (* is the code as pinned, including the known finding backlog-orphan.        *)
 (*                                                                         *)
+(* "conc" \in Feat opens streamWrapper.Close of the conn in slot 1 at the   *)
+(* granularity of its steps (guard CAS / stream.Close() / wg.Done()) for   *)
+(* two concurrent callers (net.Conn allows concurrent Close); the harness   *)
+(* interleaves two real goroutines exactly like that with the serialising   *)
+(* scheduler (scheduling point before every statement and atomic of         *)
+(* streamWrapper.Close). "weakguard" models a check-then-act guard          *)
+(* (load ... store) instead of the CAS: a design lead, RelOnce fails.       *)
+(*                                                                         *)
 (* Sync = TRUE restricts API calls to quiescent states: that sub-graph is  *)
 (* what the harness replays on the real code (binding B2, settle mode).    *)
 (* Sync = FALSE lets API calls interleave with every internal step.        *)
@@ -83,6 +91,10 @@ T0 == [cst |-> "none",     \* client Stream: none | open | half | closed
        dead |-> FALSE,     \* ghost: wrapped when its session was already closed (taken from acceptCh after shutdown)
        reinc |-> FALSE,    \* ghost: a data message arrived after the server had closed and removed the stream, and
                            \* Session.getStream took it for the first message of a new stream (same id, second Stream)
+       wc |-> <<"idle", "idle">>, \* "conc": two goroutines inside streamWrapper.Close of this conn, each
+                           \* idle | guard (before the CAS on closed) | sclose (before stream.Close()) | store ("weakguard"
+                           \* only: before StoreUint32(&closed, 1)) | done (before wg.Done()) | fin
+       rel |-> 0,          \* ghost: how often this wrapper's WaitGroup reference has been released
        surf |-> 0,         \* how often Accept returned this stream
        sp |-> 0, sb |-> 0, \* server side pendingData / recvBuf bytes
        cp |-> 0, cb |-> 0, \* client side
@@ -156,7 +168,8 @@ DeliverUp(c) ==
      IF m.t = "data" THEN
         IF T[s].sst \in {"none", "closed"}
         THEN /\ T' = [T EXCEPT ![s].sst = "open", ![s].sp = m.n, ![s].sb = 0, ![s].wrap = "none", ![s].wcl = FALSE,
-                           ![s].dead = FALSE, ![s].reinc = (T[s].sst = "closed")]
+                           ![s].dead = FALSE, ![s].reinc = (T[s].sst = "closed"),
+                           ![s].wc = <<"idle", "idle">>, ![s].rel = 0]
              /\ S' = [S EXCEPT ![c].up = Tail(@), ![c].acch = Append(@, m.k)]
         ELSE /\ T' = [T EXCEPT ![s].sp = @ + m.n]
              /\ S' = [S EXCEPT ![c].up = Tail(@)]
@@ -345,13 +358,47 @@ CClose(c, k) ==
 \* streamWrapper.Close(): CAS closed 0->1, stream.Close(), wg.Done()
 SClose(c, k) ==
   /\ T[<<c, k>>].wrap = "held" /\ Gate
+  /\ ~("conc" \in Feat /\ k = 1)      \* the conn in slot 1 is closed step by step (Wc* below)
   /\ LET s == <<c, k>> IN
      IF T[s].wcl THEN UNCHANGED <<S, T>>
-     ELSE /\ T' = [T EXCEPT ![s].wcl = TRUE, ![s].sp = 0, ![s].sb = 0,
+     ELSE /\ T' = [T EXCEPT ![s].wcl = TRUE, ![s].sp = 0, ![s].sb = 0, ![s].rel = @ + 1,
                             ![s].sst = IF @ \in {"open", "half"} THEN "closed" ELSE @]
           /\ S' = [S EXCEPT ![c].wg = @ - 1,
                             ![c].down = IF T[s].sst = "open" /\ S[c].sv = "up" /\ S[c].cl = "up"
                                         THEN Append(@, Msg(k, "close", 0)) ELSE @]
+  /\ UNCHANGED <<lclosed, backlog, acc, pr>>
+
+\* streamWrapper.Close() of the conn in slot 1, step by step, for two concurrent callers t \in {1, 2}
+WcSet(s, t, v) == [T[s].wc EXCEPT ![t] = v]
+WcBegin(t, c, k) ==
+  /\ "conc" \in Feat /\ k = 1 /\ T[<<c, k>>].wrap = "held" /\ T[<<c, k>>].wc[t] = "idle" /\ Gate
+  /\ T' = [T EXCEPT ![<<c, k>>].wc = WcSet(<<c, k>>, t, "guard")]
+  /\ UNCHANGED <<lclosed, backlog, acc, S, pr>>
+\* if atomic.CompareAndSwapUint32(&s.closed, 0, 1)    ("weakguard": if atomic.LoadUint32(&s.closed) == 0)
+WcGuard(t, c, k) ==
+  /\ T[<<c, k>>].wc[t] = "guard" /\ Gate
+  /\ LET s == <<c, k>> IN
+     IF T[s].wcl THEN T' = [T EXCEPT ![s].wc = WcSet(s, t, "fin")]
+     ELSE T' = [T EXCEPT ![s].wc = WcSet(s, t, "sclose"), ![s].wcl = ("weakguard" \notin Feat)]
+  /\ UNCHANGED <<lclosed, backlog, acc, S, pr>>
+\* _ = s.stream.Close()
+WcStream(t, c, k) ==
+  /\ T[<<c, k>>].wc[t] = "sclose" /\ Gate
+  /\ LET s == <<c, k>> IN
+     /\ T' = [T EXCEPT ![s].wc = WcSet(s, t, IF "weakguard" \in Feat THEN "store" ELSE "done"), ![s].sp = 0, ![s].sb = 0,
+                       ![s].sst = IF @ \in {"open", "half"} THEN "closed" ELSE @]
+     /\ S' = [S EXCEPT ![c].down = IF T[s].sst = "open" /\ S[c].sv = "up" /\ S[c].cl = "up"
+                                   THEN Append(@, Msg(k, "close", 0)) ELSE @]
+  /\ UNCHANGED <<lclosed, backlog, acc, pr>>
+WcStore(t, c, k) ==
+  /\ T[<<c, k>>].wc[t] = "store" /\ Gate
+  /\ T' = [T EXCEPT ![<<c, k>>].wc = WcSet(<<c, k>>, t, "done"), ![<<c, k>>].wcl = TRUE]
+  /\ UNCHANGED <<lclosed, backlog, acc, S, pr>>
+\* s.wg.Done()
+WcDone(t, c, k) ==
+  /\ T[<<c, k>>].wc[t] = "done" /\ Gate
+  /\ T' = [T EXCEPT ![<<c, k>>].wc = WcSet(<<c, k>>, t, "fin"), ![<<c, k>>].rel = @ + 1]
+  /\ S' = [S EXCEPT ![c].wg = @ - 1]
   /\ UNCHANGED <<lclosed, backlog, acc, pr>>
 
 \* listener.Accept() returning at once with a conn ...
@@ -395,6 +442,8 @@ Api == \/ \E c \in Sess : \/ \E res \in Res2 : Connect(c, res)
        \/ \E c \in Sess, k \in Slots :
              \/ \E res \in Res2 : COpen(c, k, res)
              \/ CClose(c, k) \/ SClose(c, k) \/ AcceptConn(c, k)
+             \/ \E t \in {1, 2} : WcBegin(t, c, k) \/ WcGuard(t, c, k) \/ WcStream(t, c, k) \/ WcStore(t, c, k)
+                                 \/ WcDone(t, c, k)
              \/ \E side \in {"C", "S"} :
                    \/ \E n \in WSizes, res \in Res2 : Write(side, c, k, n, res)
                    \/ \E z \in RSizes, res \in {"ok", "err", "timeout"}, n \in NRange : Read(side, c, k, z, res, n)
@@ -408,12 +457,16 @@ Spec == Init /\ [][Next]_vars
 ---------------------------------------------------------------------------
 (* properties *)
 Wrapped(c) == {k \in Slots : T[<<c, k>>].wrap \in {"hold", "backlog", "held", "dropped", "drained"} /\ ~T[<<c, k>>].wcl}
+\* conns whose Close is past the guard and has not released the reference yet
+Closing(c) == {k \in Slots : \E t \in {1, 2} : T[<<c, k>>].wc[t] \in {"sclose", "store", "done"}}
+\* the reference of a conn is released exactly once, however many goroutines close it at the same time
+RelOnce == \A s \in Str : T[s].rel <= 1
 
 \* WaitGroup never negative (a negative counter panics the process)
 CounterNonNeg == \A c \in Sess : S[c].wg >= 0
 \* the counter is 1 for the listener's reference + 1 per wrapped, unclosed stream
 CounterExact == \A c \in Sess : S[c].reg = "done" /\ S[c].waiter # "none" =>
-                   S[c].wg = (IF S[c].inmap THEN 1 ELSE 0) + Cardinality(Wrapped(c))
+                   S[c].wg = (IF S[c].inmap THEN 1 ELSE 0) + Cardinality(Wrapped(c)) + Cardinality(Closing(c))
 \* a stream surfaces at most once
 AtMostOnce == \A s \in Str : T[s].surf <= 1
 \* classifier of the known finding "late-data-resurrects-closed-stream": only such a stream may surface twice
@@ -441,7 +494,7 @@ HeldStaysUsable == \A s \in Str : T[s].wrap = "held" /\ ~T[s].wcl /\ ~T[s].dead 
 \* the wg.Wait() goroutine only fires when the listener's reference is gone
 WaiterOnlyAfterClose == \A c \in Sess : S[c].waiter = "fired" => lclosed \/ S[c].cl = "closed"
 
-AllHeldClosed(c) == \A k \in Slots : T[<<c, k>>].wrap = "held" => T[<<c, k>>].wcl
+AllHeldClosed(c) == \A k \in Slots : T[<<c, k>>].wrap = "held" => T[<<c, k>>].wcl /\ k \notin Closing(c)
 \* classifier of the known finding "backlog-orphan": a stream wrapped by the adapter that Accept never returned
 Orphan(c) == \E k \in Slots : T[<<c, k>>].wrap \in {"hold", "backlog", "dropped"} /\ ~T[<<c, k>>].wcl
 \* closing the listener lets a session end once its surfaced connections are closed
